@@ -1759,6 +1759,7 @@ func buildValidations(projected *expr.AttributeExpr, scope *codegen.NameScope) [
 							}
 							fields = append(fields, map[string]any{
 								"Name":        name,
+								"FieldName":   codegen.GoifyAtt(attr, name, true),
 								"ValidateVar": "Validate" + scope.GoTypeName(attr) + codegen.Goify(vw, true),
 								"IsRequired":  rt.Attribute().IsRequired(name),
 							})
@@ -1880,7 +1881,7 @@ func buildConstructorCode(src, tgt *expr.AttributeExpr, sourceVar, targetVar str
 			finit += codegen.Goify(v, true)
 		}
 		fields = append(fields, map[string]any{
-			"VarName":   codegen.Goify(nat.Name, true),
+			"VarName":   codegen.GoifyAtt(nat.Attribute, nat.Name, true),
 			"FieldInit": finit,
 		})
 	}
